@@ -36,7 +36,16 @@ func solverKind(name string, timeoutMs int) SolverKind {
 }
 
 var slowQ = os.Getenv("VP_SLOWQ") != ""
+var slowMs = func() time.Duration {
+	if v := os.Getenv("VP_SLOWQ_MS"); v != "" {
+		var n int
+		fmt.Sscan(v, &n)
+		return time.Duration(n) * time.Millisecond
+	}
+	return 500 * time.Millisecond
+}()
 var dumpSlow = os.Getenv("VP_DUMPSLOW")
+var noSetOpt = os.Getenv("VP_NOSETOPT") != ""
 var dumpN int
 
 // DumpQuery writes a standalone SMT-LIB2 file for the conjunction.
@@ -255,11 +264,13 @@ func (s *Solver) CheckQuick(ms int, conj ...*Term) string {
 	if s.dead {
 		s.restart()
 	}
-	s.send(fmt.Sprintf("(set-option :timeout %d)", ms))
+	if !noSetOpt {
+		s.send(fmt.Sprintf("(set-option :timeout %d)", ms))
+	}
 	s.quickMs = ms
 	r := s.Check(conj...)
 	s.quickMs = 0
-	if !s.dead {
+	if !s.dead && !noSetOpt {
 		s.send("(set-option :timeout 4294967295)")
 	}
 	return r
@@ -305,7 +316,7 @@ func (s *Solver) Check(conj ...*Term) string {
 		dumpN++
 		DumpQuery(fmt.Sprintf("%s/slow_%d_%d.smt2", dumpSlow, os.Getpid(), dumpN), conj)
 	}
-	if d := time.Since(t0); slowQ && d > 500*time.Millisecond {
+	if d := time.Since(t0); slowQ && d > slowMs {
 		fmt.Printf("SLOWQ %.2fs defined=%d refs=%v -> %v\n", d.Seconds(), len(s.defined), refs, lines)
 	}
 	res := "unknown"
